@@ -7,15 +7,15 @@ Definition set_sites : list site := [
   ((s "sharepoint2text/parsing/extractors/archive_extractor.py"), (s "<module>"), (85)%Z, UAnyAll);
   ((s "sharepoint2text/parsing/extractors/archive_extractor.py"), (s "<module>"), (101)%Z, UNone);
   ((s "sharepoint2text/parsing/extractors/data_types.py"), (s "DocxContent.iterate_units"), (963)%Z, UMember);
-  ((s "sharepoint2text/parsing/extractors/epub_extractor.py"), (s "<module>"), (120)%Z, UMember);
-  ((s "sharepoint2text/parsing/extractors/epub_extractor.py"), (s "<module>"), (123)%Z, UMember);
-  ((s "sharepoint2text/parsing/extractors/epub_extractor.py"), (s "<module>"), (126)%Z, UMember);
-  ((s "sharepoint2text/parsing/extractors/epub_extractor.py"), (s "<module>"), (682)%Z, UMember);
+  ((s "sharepoint2text/parsing/extractors/epub_extractor.py"), (s "<module>"), (124)%Z, UMember);
+  ((s "sharepoint2text/parsing/extractors/epub_extractor.py"), (s "<module>"), (127)%Z, UMember);
+  ((s "sharepoint2text/parsing/extractors/epub_extractor.py"), (s "<module>"), (130)%Z, UMember);
+  ((s "sharepoint2text/parsing/extractors/epub_extractor.py"), (s "<module>"), (688)%Z, UMember);
   ((s "sharepoint2text/parsing/extractors/html_extractor.py"), (s "<module>"), (111)%Z, UMember);
   ((s "sharepoint2text/parsing/extractors/html_extractor.py"), (s "<module>"), (114)%Z, UMember);
-  ((s "sharepoint2text/parsing/extractors/html_extractor.py"), (s "<module>"), (142)%Z, UMember);
-  ((s "sharepoint2text/parsing/extractors/html_extractor.py"), (s "_HtmlTextExtractor._collect_headings_recursive"), (396)%Z, UMember);
-  ((s "sharepoint2text/parsing/extractors/html_extractor.py"), (s "_HtmlTextExtractor._process_node"), (517)%Z, UMember);
+  ((s "sharepoint2text/parsing/extractors/html_extractor.py"), (s "<module>"), (149)%Z, UMember);
+  ((s "sharepoint2text/parsing/extractors/html_extractor.py"), (s "_HtmlTextExtractor._collect_headings_recursive"), (403)%Z, UMember);
+  ((s "sharepoint2text/parsing/extractors/html_extractor.py"), (s "_HtmlTextExtractor._process_node"), (524)%Z, UMember);
   ((s "sharepoint2text/parsing/extractors/ms_legacy/doc_extractor.py"), (s "_DocReader._extract_images_from_word_document"), (357)%Z, UMember);
   ((s "sharepoint2text/parsing/extractors/ms_legacy/doc_extractor.py"), (s "_DocReader._extract_png_images_from_bytes"), (451)%Z, UMember);
   ((s "sharepoint2text/parsing/extractors/ms_legacy/doc_extractor.py"), (s "_DocReader._extract_image_captions"), (591)%Z, UMember);
@@ -28,21 +28,21 @@ Definition set_sites : list site := [
   ((s "sharepoint2text/parsing/extractors/ms_legacy/ppt_extractor.py"), (s "_parse_ppt_document"), (363)%Z, UMember);
   ((s "sharepoint2text/parsing/extractors/ms_legacy/rtf_extractor.py"), (s "_RtfParser.<class>"), (215)%Z, UAnyAll);
   ((s "sharepoint2text/parsing/extractors/ms_legacy/xls_extractor.py"), (s "_extract_images_from_workbook"), (349)%Z, UMember);
-  ((s "sharepoint2text/parsing/extractors/ms_modern/docx_extractor.py"), (s "<module>"), (177)%Z, UMember);
-  ((s "sharepoint2text/parsing/extractors/ms_modern/docx_extractor.py"), (s "<module>"), (180)%Z, UMember);
-  ((s "sharepoint2text/parsing/extractors/ms_modern/docx_extractor.py"), (s "_extract_images_from_context"), (915)%Z, UMember);
-  ((s "sharepoint2text/parsing/extractors/ms_modern/docx_extractor.py"), (s "_extract_formulas_from_context"), (1001)%Z, UMember);
-  ((s "sharepoint2text/parsing/extractors/ms_modern/docx_extractor.py"), (s "read_docx"), (1056)%Z, USorted);
-  ((s "sharepoint2text/parsing/extractors/ms_modern/docx_extractor.py"), (s "_extract_images_from_context"), (955)%Z, USorted);
-  ((s "sharepoint2text/parsing/extractors/ms_modern/docx_extractor.py"), (s "_extract_images_from_context"), (902)%Z, USorted);
-  ((s "sharepoint2text/parsing/extractors/ms_modern/pptx_extractor.py"), (s "<module>"), (192)%Z, UMember);
-  ((s "sharepoint2text/parsing/extractors/ms_modern/pptx_extractor.py"), (s "<module>"), (195)%Z, UMember);
-  ((s "sharepoint2text/parsing/extractors/ms_modern/pptx_extractor.py"), (s "<module>"), (198)%Z, UMember);
-  ((s "sharepoint2text/parsing/extractors/ms_modern/pptx_extractor.py"), (s "<module>"), (202)%Z, UMember);
-  ((s "sharepoint2text/parsing/extractors/ms_modern/pptx_extractor.py"), (s "_extract_formulas_from_element"), (660)%Z, UMember);
-  ((s "sharepoint2text/parsing/extractors/ms_modern/pptx_extractor.py"), (s "_process_slide_from_context"), (861)%Z, UMember);
-  ((s "sharepoint2text/parsing/extractors/ms_modern/xlsx_extractor.py"), (s "<module>"), (79)%Z, UMember);
-  ((s "sharepoint2text/parsing/extractors/open_office/_shared.py"), (s "element_text"), (114)%Z, UMember);
+  ((s "sharepoint2text/parsing/extractors/ms_modern/docx_extractor.py"), (s "<module>"), (178)%Z, UMember);
+  ((s "sharepoint2text/parsing/extractors/ms_modern/docx_extractor.py"), (s "<module>"), (181)%Z, UMember);
+  ((s "sharepoint2text/parsing/extractors/ms_modern/docx_extractor.py"), (s "_extract_images_from_context"), (916)%Z, UMember);
+  ((s "sharepoint2text/parsing/extractors/ms_modern/docx_extractor.py"), (s "_extract_formulas_from_context"), (1003)%Z, UMember);
+  ((s "sharepoint2text/parsing/extractors/ms_modern/docx_extractor.py"), (s "read_docx"), (1058)%Z, USorted);
+  ((s "sharepoint2text/parsing/extractors/ms_modern/docx_extractor.py"), (s "_extract_images_from_context"), (957)%Z, USorted);
+  ((s "sharepoint2text/parsing/extractors/ms_modern/docx_extractor.py"), (s "_extract_images_from_context"), (903)%Z, USorted);
+  ((s "sharepoint2text/parsing/extractors/ms_modern/pptx_extractor.py"), (s "<module>"), (193)%Z, UMember);
+  ((s "sharepoint2text/parsing/extractors/ms_modern/pptx_extractor.py"), (s "<module>"), (196)%Z, UMember);
+  ((s "sharepoint2text/parsing/extractors/ms_modern/pptx_extractor.py"), (s "<module>"), (199)%Z, UMember);
+  ((s "sharepoint2text/parsing/extractors/ms_modern/pptx_extractor.py"), (s "<module>"), (203)%Z, UMember);
+  ((s "sharepoint2text/parsing/extractors/ms_modern/pptx_extractor.py"), (s "_extract_formulas_from_element"), (661)%Z, UMember);
+  ((s "sharepoint2text/parsing/extractors/ms_modern/pptx_extractor.py"), (s "_process_slide_from_context"), (867)%Z, UMember);
+  ((s "sharepoint2text/parsing/extractors/ms_modern/xlsx_extractor.py"), (s "<module>"), (80)%Z, UMember);
+  ((s "sharepoint2text/parsing/extractors/open_office/_shared.py"), (s "element_text"), (107)%Z, UMember);
   ((s "sharepoint2text/parsing/extractors/open_office/odf_extractor.py"), (s "<module>"), (65)%Z, UMember);
   ((s "sharepoint2text/parsing/extractors/open_office/odg_extractor.py"), (s "<module>"), (74)%Z, UMember);
   ((s "sharepoint2text/parsing/extractors/open_office/odg_extractor.py"), (s "_extract_images"), (107)%Z, UMember);
@@ -54,13 +54,13 @@ Definition set_sites : list site := [
   ((s "sharepoint2text/parsing/extractors/open_office/odt_extractor.py"), (s "_extract_images_from_context"), (482)%Z, UMember);
   ((s "sharepoint2text/parsing/extractors/open_office/odt_extractor.py"), (s "_extract_styles_from_context"), (680)%Z, USorted);
   ((s "sharepoint2text/parsing/extractors/pdf/pdf_extractor.py"), (s "_assign_digit_glyphs"), (394)%Z, UMember);
-  ((s "sharepoint2text/parsing/extractors/pdf/pdf_extractor.py"), (s "_TableExtractor.<class>"), (895)%Z, UMember);
-  ((s "sharepoint2text/parsing/extractors/pdf/pdf_extractor.py"), (s "_TableExtractor._split_compound_words"), (1392)%Z, UMember);
-  ((s "sharepoint2text/parsing/extractors/pdf/pdf_extractor.py"), (s "_TableExtractor._split_compound_words"), (1393)%Z, UMember);
-  ((s "sharepoint2text/parsing/extractors/pdf/pdf_extractor.py"), (s "_TableExtractor.is_numeric_token"), (1292)%Z, UMember);
-  ((s "sharepoint2text/parsing/extractors/serialization.py"), (s "_deserialize_dataclass"), (196)%Z, UMember);
+  ((s "sharepoint2text/parsing/extractors/pdf/pdf_extractor.py"), (s "_TableExtractor.<class>"), (907)%Z, UMember);
+  ((s "sharepoint2text/parsing/extractors/pdf/pdf_extractor.py"), (s "_TableExtractor._split_compound_words"), (1404)%Z, UMember);
+  ((s "sharepoint2text/parsing/extractors/pdf/pdf_extractor.py"), (s "_TableExtractor._split_compound_words"), (1405)%Z, UMember);
+  ((s "sharepoint2text/parsing/extractors/pdf/pdf_extractor.py"), (s "_TableExtractor.is_numeric_token"), (1304)%Z, UMember);
+  ((s "sharepoint2text/parsing/extractors/serialization.py"), (s "_deserialize_dataclass"), (200)%Z, UMember);
   ((s "sharepoint2text/parsing/extractors/util/omml_to_latex.py"), (s "<module>"), (157)%Z, UMember);
-  ((s "sharepoint2text/parsing/extractors/util/zip_context.py"), (s "ZipContext.__init__"), (18)%Z, UMember);
+  ((s "sharepoint2text/parsing/extractors/util/zip_context.py"), (s "ZipContext.__init__"), (19)%Z, UMember);
   ((s "sharepoint2text/parsing/router.py"), (s "<module>"), (118)%Z, UMember);
   ((s "sharepoint2text/parsing/router.py"), (s "<module>"), (121)%Z, UMember);
   ((s "sharepoint2text/parsing/router.py"), (s "<module>"), (119)%Z, UMember);
@@ -71,12 +71,12 @@ Definition nd_sites : list nd_site := [
   ((s "sharepoint2text/parsing/extractors/archive_extractor.py"), (s "read_archive"), (588)%Z, (s "time.perf_counter"), SLog);
   ((s "sharepoint2text/parsing/extractors/archive_extractor.py"), (s "read_archive"), (620)%Z, (s "time.perf_counter"), SLog);
   ((s "sharepoint2text/parsing/extractors/archive_extractor.py"), (s "read_archive"), (598)%Z, (s "time.perf_counter"), SLog);
-  ((s "sharepoint2text/parsing/extractors/html_extractor.py"), (s "_HtmlTextExtractor._find_nodes"), (307)%Z, (s "id()"), SIdentityKey);
-  ((s "sharepoint2text/parsing/extractors/html_extractor.py"), (s "_HtmlTextExtractor._find_node"), (324)%Z, (s "id()"), SIdentityKey);
-  ((s "sharepoint2text/parsing/extractors/ms_modern/docx_extractor.py"), (s "_extract_formulas_from_context"), (1014)%Z, (s "id()"), SIdentityKey);
-  ((s "sharepoint2text/parsing/extractors/ms_modern/docx_extractor.py"), (s "_extract_formulas_from_context"), (1007)%Z, (s "id()"), SIdentityKey);
-  ((s "sharepoint2text/parsing/extractors/ms_modern/pptx_extractor.py"), (s "_extract_formulas_from_element"), (673)%Z, (s "id()"), SIdentityKey);
-  ((s "sharepoint2text/parsing/extractors/ms_modern/pptx_extractor.py"), (s "_extract_formulas_from_element"), (666)%Z, (s "id()"), SIdentityKey);
+  ((s "sharepoint2text/parsing/extractors/html_extractor.py"), (s "_HtmlTextExtractor._find_nodes"), (314)%Z, (s "id()"), SIdentityKey);
+  ((s "sharepoint2text/parsing/extractors/html_extractor.py"), (s "_HtmlTextExtractor._find_node"), (331)%Z, (s "id()"), SIdentityKey);
+  ((s "sharepoint2text/parsing/extractors/ms_modern/docx_extractor.py"), (s "_extract_formulas_from_context"), (1016)%Z, (s "id()"), SIdentityKey);
+  ((s "sharepoint2text/parsing/extractors/ms_modern/docx_extractor.py"), (s "_extract_formulas_from_context"), (1009)%Z, (s "id()"), SIdentityKey);
+  ((s "sharepoint2text/parsing/extractors/ms_modern/pptx_extractor.py"), (s "_extract_formulas_from_element"), (674)%Z, (s "id()"), SIdentityKey);
+  ((s "sharepoint2text/parsing/extractors/ms_modern/pptx_extractor.py"), (s "_extract_formulas_from_element"), (667)%Z, (s "id()"), SIdentityKey);
   ((s "sharepoint2text/parsing/extractors/pdf/_pypdf_aes_fallback.py"), (s "_cryptaes_encrypt"), (844)%Z, (s "secrets.token_bytes"), SEncryptOnly)
 ].
 
@@ -87,11 +87,11 @@ Definition stream_sites : list stream_site := [
   ((s "sharepoint2text/parsing/extractors/archive_extractor.py"), (s "_extract_from_7z_optimized"), (467)%Z, (s "seek"));
   ((s "sharepoint2text/parsing/extractors/archive_extractor.py"), (s "_extract_from_7z_optimized"), (468)%Z, (s "tell"));
   ((s "sharepoint2text/parsing/extractors/archive_extractor.py"), (s "_extract_from_7z_optimized"), (469)%Z, (s "seek"));
-  ((s "sharepoint2text/parsing/extractors/epub_extractor.py"), (s "read_epub"), (761)%Z, (s "seek"));
-  ((s "sharepoint2text/parsing/extractors/html_extractor.py"), (s "read_html"), (629)%Z, (s "seek"));
-  ((s "sharepoint2text/parsing/extractors/html_extractor.py"), (s "read_html"), (631)%Z, (s "read"));
-  ((s "sharepoint2text/parsing/extractors/mail/eml_email_extractor.py"), (s "read_eml_format_mail"), (261)%Z, (s "seek"));
-  ((s "sharepoint2text/parsing/extractors/mail/eml_email_extractor.py"), (s "read_eml_format_mail"), (262)%Z, (s "getvalue"));
+  ((s "sharepoint2text/parsing/extractors/epub_extractor.py"), (s "read_epub"), (767)%Z, (s "seek"));
+  ((s "sharepoint2text/parsing/extractors/html_extractor.py"), (s "read_html"), (636)%Z, (s "seek"));
+  ((s "sharepoint2text/parsing/extractors/html_extractor.py"), (s "read_html"), (638)%Z, (s "read"));
+  ((s "sharepoint2text/parsing/extractors/mail/eml_email_extractor.py"), (s "read_eml_format_mail"), (270)%Z, (s "seek"));
+  ((s "sharepoint2text/parsing/extractors/mail/eml_email_extractor.py"), (s "read_eml_format_mail"), (271)%Z, (s "getvalue"));
   ((s "sharepoint2text/parsing/extractors/mail/mbox_email_extractor.py"), (s "read_mbox_format_mail"), (517)%Z, (s "seek"));
   ((s "sharepoint2text/parsing/extractors/mail/mbox_email_extractor.py"), (s "read_mbox_format_mail"), (518)%Z, (s "read"));
   ((s "sharepoint2text/parsing/extractors/mail/msg_email_extractor.py"), (s "read_msg_format_mail"), (379)%Z, (s "seek"));
@@ -112,13 +112,13 @@ Definition stream_sites : list stream_site := [
   ((s "sharepoint2text/parsing/extractors/ms_legacy/xls_extractor.py"), (s "read_xls"), (302)%Z, (s "read"));
   ((s "sharepoint2text/parsing/extractors/ms_legacy/xls_extractor.py"), (s "_extract_images_from_workbook"), (330)%Z, (s "seek"));
   ((s "sharepoint2text/parsing/extractors/ms_legacy/xls_extractor.py"), (s "_extract_images_from_workbook"), (334)%Z, (s "seek"));
-  ((s "sharepoint2text/parsing/extractors/ms_modern/docx_extractor.py"), (s "read_docx"), (1037)%Z, (s "seek"));
-  ((s "sharepoint2text/parsing/extractors/ms_modern/pptx_extractor.py"), (s "read_pptx"), (945)%Z, (s "seek"));
-  ((s "sharepoint2text/parsing/extractors/ms_modern/xlsx_extractor.py"), (s "_read_metadata"), (313)%Z, (s "seek"));
-  ((s "sharepoint2text/parsing/extractors/ms_modern/xlsx_extractor.py"), (s "_read_content"), (525)%Z, (s "seek"));
-  ((s "sharepoint2text/parsing/extractors/ms_modern/xlsx_extractor.py"), (s "_read_content"), (526)%Z, (s "read"));
-  ((s "sharepoint2text/parsing/extractors/ms_modern/xlsx_extractor.py"), (s "read_xlsx"), (583)%Z, (s "seek"));
-  ((s "sharepoint2text/parsing/extractors/ms_modern/xlsx_extractor.py"), (s "read_xlsx"), (589)%Z, (s "read"));
+  ((s "sharepoint2text/parsing/extractors/ms_modern/docx_extractor.py"), (s "read_docx"), (1039)%Z, (s "seek"));
+  ((s "sharepoint2text/parsing/extractors/ms_modern/pptx_extractor.py"), (s "read_pptx"), (951)%Z, (s "seek"));
+  ((s "sharepoint2text/parsing/extractors/ms_modern/xlsx_extractor.py"), (s "_read_metadata"), (314)%Z, (s "seek"));
+  ((s "sharepoint2text/parsing/extractors/ms_modern/xlsx_extractor.py"), (s "_read_content"), (530)%Z, (s "seek"));
+  ((s "sharepoint2text/parsing/extractors/ms_modern/xlsx_extractor.py"), (s "_read_content"), (531)%Z, (s "read"));
+  ((s "sharepoint2text/parsing/extractors/ms_modern/xlsx_extractor.py"), (s "read_xlsx"), (588)%Z, (s "seek"));
+  ((s "sharepoint2text/parsing/extractors/ms_modern/xlsx_extractor.py"), (s "read_xlsx"), (594)%Z, (s "read"));
   ((s "sharepoint2text/parsing/extractors/open_office/odf_extractor.py"), (s "read_odf"), (241)%Z, (s "seek"));
   ((s "sharepoint2text/parsing/extractors/open_office/odg_extractor.py"), (s "read_odg"), (204)%Z, (s "seek"));
   ((s "sharepoint2text/parsing/extractors/open_office/odp_extractor.py"), (s "read_odp"), (541)%Z, (s "seek"));
@@ -129,25 +129,25 @@ Definition stream_sites : list stream_site := [
   ((s "sharepoint2text/parsing/extractors/pdf/pdf_extractor.py"), (s "_should_skip_images"), (248)%Z, (s "getbuffer().nbytes"));
   ((s "sharepoint2text/parsing/extractors/plain_extractor.py"), (s "read_plain_text"), (177)%Z, (s "seek"));
   ((s "sharepoint2text/parsing/extractors/plain_extractor.py"), (s "read_plain_text"), (179)%Z, (s "read"));
-  ((s "sharepoint2text/parsing/extractors/util/encryption.py"), (s "is_ooxml_encrypted"), (18)%Z, (s "seek"));
-  ((s "sharepoint2text/parsing/extractors/util/encryption.py"), (s "is_ooxml_encrypted"), (25)%Z, (s "seek"));
-  ((s "sharepoint2text/parsing/extractors/util/encryption.py"), (s "is_ooxml_encrypted"), (20)%Z, (s "seek"));
-  ((s "sharepoint2text/parsing/extractors/util/encryption.py"), (s "is_ooxml_encrypted"), (23)%Z, (s "seek"));
-  ((s "sharepoint2text/parsing/extractors/util/encryption.py"), (s "is_odf_encrypted"), (30)%Z, (s "seek"));
-  ((s "sharepoint2text/parsing/extractors/util/encryption.py"), (s "is_odf_encrypted"), (35)%Z, (s "seek"));
-  ((s "sharepoint2text/parsing/extractors/util/encryption.py"), (s "is_odf_encrypted"), (42)%Z, (s "seek"));
-  ((s "sharepoint2text/parsing/extractors/util/encryption.py"), (s "is_odf_encrypted"), (32)%Z, (s "seek"));
-  ((s "sharepoint2text/parsing/extractors/util/encryption.py"), (s "is_xls_encrypted"), (59)%Z, (s "seek"));
-  ((s "sharepoint2text/parsing/extractors/util/encryption.py"), (s "is_xls_encrypted"), (64)%Z, (s "seek"));
-  ((s "sharepoint2text/parsing/extractors/util/encryption.py"), (s "is_xls_encrypted"), (87)%Z, (s "seek"));
-  ((s "sharepoint2text/parsing/extractors/util/encryption.py"), (s "is_xls_encrypted"), (61)%Z, (s "seek"));
-  ((s "sharepoint2text/parsing/extractors/util/encryption.py"), (s "is_xls_encrypted"), (73)%Z, (s "seek"));
-  ((s "sharepoint2text/parsing/extractors/util/encryption.py"), (s "is_xls_encrypted"), (84)%Z, (s "seek"));
-  ((s "sharepoint2text/parsing/extractors/util/encryption.py"), (s "is_ppt_encrypted"), (92)%Z, (s "seek"));
-  ((s "sharepoint2text/parsing/extractors/util/encryption.py"), (s "is_ppt_encrypted"), (97)%Z, (s "seek"));
-  ((s "sharepoint2text/parsing/extractors/util/encryption.py"), (s "is_ppt_encrypted"), (105)%Z, (s "seek"));
-  ((s "sharepoint2text/parsing/extractors/util/encryption.py"), (s "is_ppt_encrypted"), (94)%Z, (s "seek"));
-  ((s "sharepoint2text/parsing/extractors/util/encryption.py"), (s "is_ppt_encrypted"), (100)%Z, (s "seek"));
+  ((s "sharepoint2text/parsing/extractors/util/encryption.py"), (s "is_ooxml_encrypted"), (19)%Z, (s "seek"));
+  ((s "sharepoint2text/parsing/extractors/util/encryption.py"), (s "is_ooxml_encrypted"), (26)%Z, (s "seek"));
+  ((s "sharepoint2text/parsing/extractors/util/encryption.py"), (s "is_ooxml_encrypted"), (21)%Z, (s "seek"));
+  ((s "sharepoint2text/parsing/extractors/util/encryption.py"), (s "is_ooxml_encrypted"), (24)%Z, (s "seek"));
+  ((s "sharepoint2text/parsing/extractors/util/encryption.py"), (s "is_odf_encrypted"), (31)%Z, (s "seek"));
+  ((s "sharepoint2text/parsing/extractors/util/encryption.py"), (s "is_odf_encrypted"), (36)%Z, (s "seek"));
+  ((s "sharepoint2text/parsing/extractors/util/encryption.py"), (s "is_odf_encrypted"), (43)%Z, (s "seek"));
+  ((s "sharepoint2text/parsing/extractors/util/encryption.py"), (s "is_odf_encrypted"), (33)%Z, (s "seek"));
+  ((s "sharepoint2text/parsing/extractors/util/encryption.py"), (s "is_xls_encrypted"), (60)%Z, (s "seek"));
+  ((s "sharepoint2text/parsing/extractors/util/encryption.py"), (s "is_xls_encrypted"), (65)%Z, (s "seek"));
+  ((s "sharepoint2text/parsing/extractors/util/encryption.py"), (s "is_xls_encrypted"), (88)%Z, (s "seek"));
+  ((s "sharepoint2text/parsing/extractors/util/encryption.py"), (s "is_xls_encrypted"), (62)%Z, (s "seek"));
+  ((s "sharepoint2text/parsing/extractors/util/encryption.py"), (s "is_xls_encrypted"), (74)%Z, (s "seek"));
+  ((s "sharepoint2text/parsing/extractors/util/encryption.py"), (s "is_xls_encrypted"), (85)%Z, (s "seek"));
+  ((s "sharepoint2text/parsing/extractors/util/encryption.py"), (s "is_ppt_encrypted"), (93)%Z, (s "seek"));
+  ((s "sharepoint2text/parsing/extractors/util/encryption.py"), (s "is_ppt_encrypted"), (98)%Z, (s "seek"));
+  ((s "sharepoint2text/parsing/extractors/util/encryption.py"), (s "is_ppt_encrypted"), (112)%Z, (s "seek"));
+  ((s "sharepoint2text/parsing/extractors/util/encryption.py"), (s "is_ppt_encrypted"), (95)%Z, (s "seek"));
+  ((s "sharepoint2text/parsing/extractors/util/encryption.py"), (s "is_ppt_encrypted"), (101)%Z, (s "seek"));
   ((s "sharepoint2text/parsing/extractors/util/zip_bomb.py"), (s "open_zipfile"), (124)%Z, (s "seek"));
   ((s "sharepoint2text/parsing/extractors/util/zip_bomb.py"), (s "validate_zip_bytesio"), (145)%Z, (s "tell"));
   ((s "sharepoint2text/parsing/extractors/util/zip_bomb.py"), (s "validate_zip_bytesio"), (147)%Z, (s "seek"));
@@ -169,4 +169,70 @@ Definition observer_writes : list (str * str * Z) := [
 (* writes to process-global state of the STANDARD LIBRARY (registries, environment, interpreter settings) *)
 Definition stdlib_global_writes : list (str * str * Z * str) := [
 
+].
+
+(* places where an object is turned into text that may reach a result (primitive operands omitted: 304 sites) *)
+Definition stringify_sites : list (str * str * str * sclass) := [
+  ((s "sharepoint2text/parsing/extractors/archive_extractor.py"), (s "read_archive"), (s "archive_type.split('.')[-1]"), KReviewed);
+  ((s "sharepoint2text/parsing/extractors/data_types.py"), (s "FileMetadataInterface.populate_from_path"), (s "p.resolve()"), KReviewed);
+  ((s "sharepoint2text/parsing/extractors/data_types.py"), (s "FileMetadataInterface.populate_from_path"), (s "p"), KReviewed);
+  ((s "sharepoint2text/parsing/extractors/data_types.py"), (s "FileMetadataInterface.populate_from_path"), (s "p.parent.resolve()"), KReviewed);
+  ((s "sharepoint2text/parsing/extractors/data_types.py"), (s "FileMetadataInterface.populate_from_path"), (s "p.parent"), KReviewed);
+  ((s "sharepoint2text/parsing/extractors/data_types.py"), (s "EmailContent.iterate_supported_attachments"), (s "file_type"), KReviewed);
+  ((s "sharepoint2text/parsing/extractors/data_types.py"), (s "XlsContent.iterate_units"), (s "cell"), KReviewed);
+  ((s "sharepoint2text/parsing/extractors/data_types.py"), (s "OdtContent.iterate_units"), (s "cell"), KReviewed);
+  ((s "sharepoint2text/parsing/extractors/data_types.py"), (s "OdtContent.iterate_units"), (s "cell"), KReviewed);
+  ((s "sharepoint2text/parsing/extractors/html_extractor.py"), (s "_HtmlTextExtractor._extract_headings"), (s "level"), KReviewed);
+  ((s "sharepoint2text/parsing/extractors/mail/eml_email_extractor.py"), (s "_read_eml_format"), (s "mail.text_plain"), KReviewed);
+  ((s "sharepoint2text/parsing/extractors/mail/eml_email_extractor.py"), (s "_read_eml_format"), (s "mail.text_html"), KReviewed);
+  ((s "sharepoint2text/parsing/extractors/mail/eml_email_extractor.py"), (s "_read_eml_format"), (s "mail.message.get('Date', '')"), KReviewed);
+  ((s "sharepoint2text/parsing/extractors/mail/mbox_email_extractor.py"), (s "get_body_content"), (s "part.get('Content-Disposition', '')"), KReviewed);
+  ((s "sharepoint2text/parsing/extractors/ms_legacy/xls_extractor.py"), (s "_get_cell_values"), (s "value"), KReviewed);
+  ((s "sharepoint2text/parsing/extractors/ms_legacy/xls_extractor.py"), (s "_get_cell_value"), (s "value"), KReviewed);
+  ((s "sharepoint2text/parsing/extractors/ms_legacy/xls_extractor.py"), (s "_get_cell_values"), (s "value"), KReviewed);
+  ((s "sharepoint2text/parsing/extractors/ms_legacy/xls_extractor.py"), (s "_get_cell_value"), (s "value"), KReviewed);
+  ((s "sharepoint2text/parsing/extractors/ms_legacy/xls_extractor.py"), (s "_get_cell_value"), (s "value"), KReviewed);
+  ((s "sharepoint2text/parsing/extractors/ms_legacy/xls_extractor.py"), (s "_get_cell_values"), (s "value"), KReviewed);
+  ((s "sharepoint2text/parsing/extractors/ms_legacy/xls_extractor.py"), (s "_get_cell_values"), (s "value"), KReviewed);
+  ((s "sharepoint2text/parsing/extractors/ms_legacy/xls_extractor.py"), (s "_get_cell_value"), (s "value"), KReviewed);
+  ((s "sharepoint2text/parsing/extractors/ms_modern/docx_extractor.py"), (s "_extract_images_from_context"), (s "e"), KException);
+  ((s "sharepoint2text/parsing/extractors/ms_modern/pptx_extractor.py"), (s "_PptxContext._load_xml_files"), (s "slide_name"), KReviewed);
+  ((s "sharepoint2text/parsing/extractors/ms_modern/pptx_extractor.py"), (s "_process_slide_from_context"), (s "latex"), KReviewed);
+  ((s "sharepoint2text/parsing/extractors/ms_modern/pptx_extractor.py"), (s "_process_slide_from_context"), (s "latex"), KReviewed);
+  ((s "sharepoint2text/parsing/extractors/ms_modern/pptx_extractor.py"), (s "_process_slide_from_context"), (s "comment.author"), KReviewed);
+  ((s "sharepoint2text/parsing/extractors/ms_modern/pptx_extractor.py"), (s "_process_slide_from_context"), (s "comment.date"), KReviewed);
+  ((s "sharepoint2text/parsing/extractors/ms_modern/pptx_extractor.py"), (s "_PptxContext._compute_slide_order"), (s "target"), KReviewed);
+  ((s "sharepoint2text/parsing/extractors/ms_modern/pptx_extractor.py"), (s "_PptxContext._compute_slide_order"), (s "target"), KReviewed);
+  ((s "sharepoint2text/parsing/extractors/ms_modern/pptx_extractor.py"), (s "_process_slide_from_context"), (s "description"), KReviewed);
+  ((s "sharepoint2text/parsing/extractors/ms_modern/xlsx_extractor.py"), (s "_format_value_for_display"), (s "value"), KReviewed);
+  ((s "sharepoint2text/parsing/extractors/ms_modern/xlsx_extractor.py"), (s "_get_cell_value"), (s "cell_value"), KReviewed);
+  ((s "sharepoint2text/parsing/extractors/ms_modern/xlsx_extractor.py"), (s "_read_sheet_data"), (s "val"), KReviewed);
+  ((s "sharepoint2text/parsing/extractors/ms_modern/xlsx_extractor.py"), (s "_read_content_from_workbook"), (s "sheet_name"), KReviewed);
+  ((s "sharepoint2text/parsing/extractors/open_office/odg_extractor.py"), (s "_extract_images"), (s "exc"), KException);
+  ((s "sharepoint2text/parsing/extractors/open_office/odp_extractor.py"), (s "_extract_image"), (s "e"), KException);
+  ((s "sharepoint2text/parsing/extractors/open_office/ods_extractor.py"), (s "_extract_images"), (s "e"), KException);
+  ((s "sharepoint2text/parsing/extractors/open_office/odt_extractor.py"), (s "_extract_images_from_context"), (s "e"), KException);
+  ((s "sharepoint2text/parsing/extractors/open_office/odt_extractor.py"), (s "_extract_images_from_context"), (s "e"), KException);
+  ((s "sharepoint2text/parsing/extractors/pdf/pdf_extractor.py"), (s "_extract_image"), (s "filter_type"), KReviewed);
+  ((s "sharepoint2text/parsing/extractors/pdf/pdf_extractor.py"), (s "_normalize_text"), (s "value"), KReviewed);
+  ((s "sharepoint2text/parsing/extractors/pdf/pdf_extractor.py"), (s "_extract_image"), (s "image_obj.get('/ColorSpace', 'unknown')"), KStripped);
+  ((s "sharepoint2text/parsing/extractors/pdf/pdf_extractor.py"), (s "_patch_font_digit_map"), (s "digit"), KReviewed);
+  ((s "sharepoint2text/parsing/extractors/pdf/pdf_extractor.py"), (s "_extract_image"), (s "name"), KReviewed);
+  ((s "sharepoint2text/parsing/extractors/pdf/pdf_extractor.py"), (s "_extract_page_mcid_data"), (s "actual_text"), KReviewed);
+  ((s "sharepoint2text/parsing/extractors/pdf/pdf_extractor.py"), (s "_TableExtractor._build_row"), (s "last_row[0]"), KReviewed);
+  ((s "sharepoint2text/parsing/extractors/pdf/pdf_extractor.py"), (s "_extract_image_alt_text"), (s "value"), KStripped);
+  ((s "sharepoint2text/parsing/extractors/pdf/pdf_extractor.py"), (s "_TableExtractor._score_tables"), (s "cell"), KReviewed);
+  ((s "sharepoint2text/parsing/extractors/plain_extractor.py"), (s "_detect_and_decode"), (s "best_match"), KReviewed);
+  ((s "sharepoint2text/parsing/extractors/serialization.py"), (s "_serialize_for_json"), (s "key"), KReviewed);
+  ((s "sharepoint2text/parsing/extractors/util/ole_text.py"), (s "decode_ole_text"), (s "value"), KReviewed);
+  ((s "sharepoint2text/parsing/extractors/util/omml_to_latex.py"), (s "process_element"), (s "left"), KReviewed);
+  ((s "sharepoint2text/parsing/extractors/util/omml_to_latex.py"), (s "process_element"), (s "right"), KReviewed);
+  ((s "sharepoint2text/parsing/extractors/util/omml_to_latex.py"), (s "process_element"), (s "latex_fname"), KReviewed);
+  ((s "sharepoint2text/parsing/extractors/util/omml_to_latex.py"), (s "process_element"), (s "latex_accent"), KReviewed)
+].
+
+(* (pattern, replacement) of every re.sub / re.compile whose pattern names IndirectObject *)
+Definition strip_patterns : list (str * str) := [
+  ((s "(IndirectObject\(\d+, \d+), \d+\)"), (s "\1)"));
+  ((s "(IndirectObject\(\d+, \d+), \d+\)"), (s "\1)"))
 ].
